@@ -206,6 +206,7 @@ func runCase(cs *caseSpec, rng *rand.Rand, replay []int, record bool) (sched []i
 	var fns []func()
 	cursors := make([]adapter.Cursor, len(cs.threads))
 	exhausted := make([]bool, len(cs.threads))
+	cbHeldBad := false // C10 callback oracle already reported in this run
 	for ti := range cs.threads {
 		ti := ti
 		prog := cs.threads[ti]
@@ -244,6 +245,13 @@ func runCase(cs *caseSpec, rng *rand.Rand, replay []int, record bool) (sched []i
 						}
 						r.cbArgs = append(r.cbArgs, a)
 						vsync.Note("cb " + a)
+						// C10: "a running Update callback holds exactly one leaf" (R7-C10-d kept the
+						// leaf's parent locked across the callback: within the parent+child bound,
+						// so the coupling count alone did not see it)
+						if n := len(s.HeldBy(ti)); n != 1 && !cbHeldBad {
+							cbHeldBad = true
+							oracles = append(oracles, oracleMsg{"coupling", fmt.Sprintf("task %d (%s) runs its Update callback holding %d mutexes (exactly one, its leaf, expected)", ti, r.op.text, n)})
+						}
 						if yields {
 							vsync.Yield()
 						}
